@@ -87,7 +87,12 @@ var properties = []Property{
 		Rules:     []string{"POS.capture", "POS.stale", "CUR.siblings", "CUR.unread", "CUR.linerule"},
 		Technique: "same abstract interpretation: where, relative to the first Read, each state samples Line/Column/PeekLine/PeekColumn",
 	},
-	 {ID: "C13"}, 
+	 
+	{ID: "C13", Title: "Lexeme sequences tokenize back to themselves with the right classes",
+		Rules:     []string{"LEX.tables", "LEX.dispatch", "LEX.charsets", "LEX.classes", "SCAN.balance", "SCAN.symbol", "SYM.valid", "SYM.ancestry", "MAP.flow", "MAP.order", "STATE.tokenize"},
+		Technique: "cross-table agreement, constant folding of the constructors' registration sequences under the map semantics, terminal-character alternative sets per state, abstract interpretation of the states",
+	},
+	 
 	{ID: "C14", Title: "Quote encoding and decoding are inverse and total for all Unicode text",
 		Rules:     []string{"CODEC.pair", "CODEC.reader", "DIM.runes", "PANIC.index", "SCAN.balance"},
 		Technique: "normalised SSA expressions of the encode/decode pair (mirror-image check), guard extraction, byte/rune dimension rule, bounds prover, abstract interpretation of the quote readers",
